@@ -100,7 +100,48 @@ def search(stop_at=1, long_strings=True):
                     break
             if stop_at and len(fails) >= stop_at:
                 return fails, n, len(distinct)
+    # 3. collection / mapping / structured targets: the JSON text and the Python-literal text of a wire value are
+    #    equivalent to the decoded wire value itself
+    big = [("list[int] 64-bit boundaries", list[int], [[2 ** 63 - 1, -2 ** 63, 2 ** 64 - 1, 0]]),
+           ("dict[str,int] 64-bit boundaries", dict[str, int], [{"a": 2 ** 64 - 1, "b": -2 ** 63}])]
+    for name, T, values in tp.pool() + big:
+        if has_bytes(T):
+            continue
+        for vi, v in enumerate(values):
+            try:
+                w = typelib.marshal(v, t=T)
+            except Exception:
+                continue
+            if not isinstance(w, (list, dict)):
+                continue
+            want = outcome(lambda: typelib.unmarshal(T, w))
+            for form, text in (("json", outcome(lambda: json.dumps(w))), ("literal", ("ok", repr(w)))):
+                if text[0] != "ok":
+                    continue
+                n += 1
+                distinct.add((name, "text-vs-decoded", vi, form))
+                got = outcome(lambda: typelib.unmarshal(T, text[1]))
+                if not equal_outcomes(want, got):
+                    fails.append({"kind": "text-vs-decoded", "type": name, "text": text[1][:80], "failure":
+                                  f"unmarshal({name}, {text[1][:80]!r}) gives {got!r} but the decoded value gives {want!r}"})
+                    if stop_at and len(fails) >= stop_at:
+                        return fails, n, len(distinct)
     return fails, n, len(distinct)
+
+
+def beyond_64_bit_witness():
+    """Known finding C14-json-integers-beyond-64-bit: the JSON decoder in use (orjson) reads an integer outside the 64-bit range
+    as a float, so the JSON text of such a wire value is not equivalent to the decoded value."""
+    import typelib
+    from typelib import serdes
+    clear_typelib_caches()
+    w = [12345678901234567890123]
+    a, b = outcome(lambda: typelib.unmarshal(list[int], json.dumps(w))), outcome(lambda: typelib.unmarshal(list[int], w))
+    r = serdes.strload(str(2 ** 64))
+    if equal_outcomes(a, b) and r == 2 ** 64 and type(r) is int:
+        return None
+    return (f"unmarshal(list[int], {json.dumps(w)!r}) gives {a!r} but the decoded value gives {b!r}; "
+            f"serdes.strload({str(2 ** 64)!r}) == {r!r}")
 
 
 def run_recorded(case):
